@@ -123,7 +123,9 @@ PROPS["C10"] = {
 
 PROPS["C08"] = {
     "units": [
-        rapid("login-machine", "rtpconn", "TestVerif_C08_LoginMachine", 400, 3000),
+        rapid("decision-procedure", "group", "TestVerif_C08_DecisionProcedure", 4000, 30000),
+        rapid("makepassword-roundtrip", "galenectl", "TestVerif_C08_MakePasswordRoundTrip", 1200, 8000),
+        rapid("login-machine", "rtpconn", "TestVerif_C08_LoginMachine", 250, 2000),
     ],
     "technique": "property-based testing (rapid) against an independent decision procedure; metamorphic login-after-moderation machine",
     "assumptions": ["bcrypt inputs restricted to NUL-free strings of <=72 bytes, pbkdf2 keys >=16 bytes (limits of the primitives, not galene's claim)"],
